@@ -43,6 +43,8 @@ def clone(node):
             if hasattr(node, a):
                 setattr(new, a, getattr(node, a))
         new._orig = getattr(node, '_orig', id(node))
+        if hasattr(node, '_origin'):
+            new._origin = node._origin
         return new
     if isinstance(node, list):
         return [clone(x) for x in node]
@@ -315,6 +317,10 @@ class Normalizer:
             body = body[1:]
         tr = _Subst(subst, rename)
         body = [tr.visit(st) for st in body]
+        for st in body:
+            for n in ast.walk(st):
+                if not hasattr(n, '_origin'):
+                    n._origin = callee.qualname        # findings inside inlined code are attributed to the helper they come from
         return prelude, body
 
     def _conv(self, stmts, mk):
